@@ -131,6 +131,7 @@ inductive Out (W : Type) where
   | done
   /-- `AttributeError`: `run_routing_backward` before any search (the nodes have no `antecedent`) -/
   | attrErr
+deriving DecidableEq, Repr
 
 /-- the forward pass of an operation, with the optional recording in the session's dictionary -/
 def Sess.forward (net : Net W) (se : Sess W) (s : NodeArg) (t : Option NodeArg) (cut : Option W) (useDict : Bool) :
